@@ -213,7 +213,10 @@ class G:
             if inrep:
                 t = self.pick(inrep)
                 rp = self.in_repeat_names[t]
-                choices = [lambda: f"indexed-repeat(${{{t}}}, ${{{rp}}}, 1) = {L}"]
+                choices = [lambda: f"indexed-repeat(${{{t}}}, ${{{rp}}}, 1) = {L}",
+                           # references before, between and after several calls
+                           lambda: f"indexed-repeat(${{{t}}}, ${{{rp}}}, 1) + {r()} > indexed-repeat(${{{t}}}, ${{{rp}}}, 2) or {L}",
+                           lambda: f"{r()} = {L} or indexed-repeat(${{{t}}}, ${{{rp}}}, 1) + {r()} + indexed-repeat(${{{t}}}, ${{{rp}}}, 2) + {r()} > 3"]
         return self.pick(choices)()
 
     def calc(self):
